@@ -76,6 +76,8 @@ func checkC04(c *Ctx) {
 	c.Rule("C04-R3", "engage re-applies mouse/paste/focus/title from the persistent fields; every toggler stores the persistent field and emits consistently, under the lock")
 	c.Rule("C04-R5", "mode strings come in pairs: the built-in fallback of the string that switches a mode off is assigned under the same conditions as the fallback of the string that switches it on; in engage the title is saved before it is set")
 	c.Rule("C04-R6", "a mode toggled while the screen is not running (suspended, or before Init) is remembered and not written: every emission of the mode togglers and of SetTitle is behind the running test (engage applies the remembered modes; a write to the stopped Tty would leave the mode on after Fini, whose teardown returns at once on a screen that is not running)")
+	c.Rule("C04-R7", "what the shutdown path undoes at every hand-back, engage did at every take-over: the enter/push emissions (alternate screen, keypad, cursor, auto-margin, title stack) carry no guard beyond the environment switch and the string being present")
+	c.Expect("C04-R7", 5)
 	c.Expect("C04-R6", 7)
 	c.Expect("C04-R5", 3)
 	c.Rule("C04-R4", "the remembered modes (mouse flags, paste, focus, title, cursor style and colour) are stored only by the application-facing togglers: nothing reachable from Suspend, Resume or Fini stores them")
@@ -221,6 +223,75 @@ func checkC04(c *Ctx) {
 			}
 		}
 		c.Check(ok, "C04-R1", "pair:"+pr.kind, p.pos(sites[0].Pos()), fmt.Sprintf("reset %s before Tty.Stop %s", pr.reset, why))
+	}
+
+	// ---- R7: the other direction.  What the shutdown path undoes every time must have been done every
+	// time: the enter/push emissions of engage carry no guard beyond the ones their leave/pop side is
+	// allowed (the environment switch, the string being present).  A push that happens only the first
+	// time while the pop happens at every hand-back empties a stack that belongs to the terminal.
+	{
+		commonE := map[string]bool{}
+		for _, st := range storesTo(engage, "tcell.tScreen", "running") {
+			if v, isC := constBool(st.Val); isC && v {
+				for _, a := range guardsAt(st.Block()) {
+					commonE[a.String()] = true
+				}
+			}
+		}
+		for _, a := range guardsAt(startCall.Block()) {
+			commonE[a.String()] = true
+		}
+		sets := map[string][]ssa.Instruction{}
+		eachInstr(engage, func(in ssa.Instruction) {
+			for _, id := range emitIdents(p, in) {
+				sets[id] = append(sets[id], in)
+			}
+		})
+		for _, pr := range []struct {
+			kind, set string
+			guards    []string
+		}{
+			{"alternate-screen", "field:EnterCA", []string{"TCELL_ALTSCREEN"}},
+			{"keypad", "field:EnterKeypad", nil},
+			{"cursor-visibility", "field:HideCursor", nil},
+			{"auto-margin", "field:DisableAutoMargin", nil},
+			{"title-stack", "prepared:saveTitle", []string{"TCELL_ALTSCREEN", "t.saveTitle != \"\""}},
+		} {
+			if len(resets[map[string]string{"alternate-screen": "field:ExitCA", "keypad": "field:ExitKeypad", "cursor-visibility": "field:ShowCursor", "auto-margin": "field:EnableAutoMargin", "title-stack": "prepared:restoreTitle"}[pr.kind]]) == 0 {
+				c.Trivial("C04-R7", "setup:"+pr.kind, p.pos(engage.Pos()), "the shutdown path has no such reset")
+				continue
+			}
+			sites := sets[pr.set]
+			if len(sites) == 0 {
+				c.Fail("C04-R7", "setup:"+pr.kind, p.pos(engage.Pos()), "the shutdown path emits the reset but engage never emits "+pr.set)
+				continue
+			}
+			ok, why := false, ""
+			for _, s := range sites {
+				bad := []string{}
+				for _, a := range guardsAt(s.Block()) {
+					as := a.String()
+					if commonE[as] {
+						continue
+					}
+					allowed := false
+					for _, g := range pr.guards {
+						if strings.Contains(as, g) {
+							allowed = true
+						}
+					}
+					if !allowed {
+						bad = append(bad, as)
+					}
+				}
+				if len(bad) == 0 {
+					ok = true
+				} else {
+					why = fmt.Sprintf("depends on %v although the reset is emitted at every hand-back", bad)
+				}
+			}
+			c.Check(ok, "C04-R7", "setup:"+pr.kind, p.pos(sites[0].Pos()), fmt.Sprintf("%s emitted by engage whenever its reset will be %s", pr.set, why))
+		}
 	}
 
 	// ---- R2
